@@ -20,7 +20,7 @@ use std::sync::{Arc, Mutex};
 pub fn def() -> PropDef {
     PropDef {
         id: "C16",
-        rule: "2 threads x scripts of <=3 steps and 3 threads x scripts of <=2 steps over {fail with message A/B/C/D through four different table entries, succeed, read description through the thread's last CErr*, look again at the description text retrieved earlier}; every interleaving of the steps (step-level points, unbounded) and, with the library's yield points around the error store enabled, every interleaving with at most 2 preemptions; each execution runs on real OS threads under a baton scheduler and is compared with the per-thread expectation; distinct classes = (threads, script shapes, whether a foreign failure lies between a failure and its read)",
+        rule: "2 threads x scripts of <=3 steps and 3 threads x scripts of <=2 steps over {fail with one of six different messages through four table entries (two entries fail in two different ways), succeed, read description through the thread's last CErr*, look again at the description text retrieved earlier}; every interleaving of the steps (step-level points, unbounded) and, with the library's yield points around the error store enabled, every interleaving with at most 2 preemptions; each execution runs on real OS threads under a baton scheduler and is compared with the per-thread expectation; distinct classes = (threads, script shapes, whether a foreign failure lies between a failure and its read)",
         run,
         replay,
         bounds: |t| json!({"threads": [2, 3], "steps_2_threads": t.pick(3, 4), "steps_3_threads": 2, "preemption_bound_with_library_points": t.pick(2, 3), "max_executions_per_tuple": 20000}),
@@ -100,11 +100,17 @@ fn do_step(t: &FnTable, c: &mut ThreadCtx, s: Step) -> Result<String, String> {
                         let txt = CString::new("x. 1 IN A 1.2.3.4").unwrap();
                         (t.add_to_question)(&mut c.pp, &mut err, txt.as_ptr())
                     }
-                    2 => {
+                    2 | 4 => {
                         let mut raw = [0u8; 256];
                         let mut raw_len: libc::size_t = 0;
-                        let name = b"a..b";
+                        let long = [b'x'; 70];
+                        let name: &[u8] = if k == 2 { b"a..b" } else { &long };
                         (t.raw_name_from_str)(&mut raw, &mut raw_len, &mut err, name.as_ptr() as *const _, name.len())
+                    }
+                    5 => {
+                        let tgt = [1u8; 300];
+                        let src = [1u8, b'z', 0];
+                        (t.rename_with_raw_names)(&mut c.pp, &mut err, tgt.as_ptr(), tgt.len(), src.as_ptr(), src.len(), false)
                     }
                     _ => {
                         let tgt = [1u8, b'z', 0];
@@ -154,7 +160,7 @@ fn do_step(t: &FnTable, c: &mut ThreadCtx, s: Step) -> Result<String, String> {
 fn expected_messages() -> Vec<String> {
     let t = fn_table();
     let mut c = ThreadCtx { pp: crate::subj::parse(&base_packet()).unwrap(), last_err: std::ptr::null(), last_desc: std::ptr::null(), last_msg: None };
-    (0..4u8)
+    (0..6u8)
         .map(|k| {
             do_step(&t, &mut c, Step::Fail(k)).unwrap();
             c.last_msg.clone().unwrap()
@@ -245,7 +251,7 @@ fn judge(scripts: &[Vec<Step>], obs: &[Obs], exp: &[String]) -> Result<bool, Str
 }
 
 fn scripts_upto(n: usize) -> Vec<Vec<Step>> {
-    let alpha = [Step::Fail(0), Step::Fail(1), Step::Fail(2), Step::Fail(3), Step::Succeed, Step::Read, Step::Peek];
+    let alpha = [Step::Fail(0), Step::Fail(1), Step::Fail(2), Step::Fail(3), Step::Fail(4), Step::Fail(5), Step::Succeed, Step::Read, Step::Peek];
     let mut out: Vec<Vec<Step>> = vec![];
     let mut cur: Vec<Vec<Step>> = vec![vec![]];
     for _ in 0..n {
@@ -346,8 +352,8 @@ fn explore_tuple(ctx: &mut Ctx, rep: &mut Report, scripts: &[Vec<Step>], libpoin
 
 fn run(ctx: &mut Ctx, rep: &mut Report) {
     let exp = expected_messages();
-    if exp.iter().collect::<std::collections::BTreeSet<_>>().len() != 4 {
-        rep.vacuity.push(format!("the four failing calls do not produce four distinct messages: {:?}", exp));
+    if exp.iter().collect::<std::collections::BTreeSet<_>>().len() != 6 {
+        rep.vacuity.push(format!("the six failing calls do not produce six distinct messages: {:?}", exp));
     }
     let n2 = ctx.tier.pick(2, 3);
     let s2 = scripts_upto(n2);
@@ -363,7 +369,7 @@ fn run(ctx: &mut Ctx, rep: &mut Report) {
         }
     }
     // 2 threads with the library's points, preemption bound
-    let s_lib = scripts_upto(2);
+    let s_lib: Vec<Vec<Step>> = scripts_upto(2).into_iter().filter(|s| !s.iter().any(|x| matches!(x, Step::Fail(4) | Step::Fail(5)))).collect();
     for a in &s_lib {
         for b in &s_lib {
             gi += 1;
@@ -374,9 +380,9 @@ fn run(ctx: &mut Ctx, rep: &mut Report) {
         }
     }
     // 3 threads: a failure/read thread against two failing threads
-    let s3: Vec<Vec<Step>> = scripts_upto(2).into_iter().filter(|s| s.len() == 2).collect();
+    let s3: Vec<Vec<Step>> = scripts_upto(2).into_iter().filter(|s| s.len() == 2 && !s.iter().any(|x| matches!(x, Step::Fail(4) | Step::Fail(5)))).collect();
     let readers: Vec<Vec<Step>> = s3.iter().filter(|s| s[1] == Step::Read || s[1] == Step::Peek).cloned().collect();
-    let failers: Vec<Vec<Step>> = vec![vec![Step::Fail(1)], vec![Step::Fail(2), Step::Fail(3)], vec![Step::Fail(0), Step::Read]];
+    let failers: Vec<Vec<Step>> = vec![vec![Step::Fail(1)], vec![Step::Fail(2), Step::Fail(3)], vec![Step::Fail(0), Step::Read], vec![Step::Fail(4), Step::Fail(5)]];
     for a in &readers {
         for b in &failers {
             for c in &failers {
